@@ -11,7 +11,8 @@
        `Int`, f32/f64 share `Float`: the first Rust type registered under a name supplies the
        validator, and `Registry::add_system_types` registers `i32`, `f32`, `ID` before any user type
        (`Gen/NumScalars.lean`) — so an `Int` position of Rust type `u64` is validated by i32's
-       `is_i64()` (`registeredIntValidator`);
+       `is_valid` (`registeredIntValid`; its guard is read from the source: `is_i64()` in the
+       pinned tree, finding C07-int-validator-of-first-registered);
     3. the resolver's `<T as ScalarType>::parse` (`Model.Scalars.parseInt`, driven by the
        source-derived table `Gen/IntScalars.lean`: accessor, the disjuncts of the rejecting `if`,
        the `n as T` cast, and for NonZero* the `new(..).unwrap()` that panics on 0).
@@ -58,19 +59,17 @@ def lexNumber (n : Int) : GValue :=
 def registeredIntEntry : Option Entry :=
   AGV.Gen.NumScalars.systemScalars.findSome? (fun n => table.find? (fun e => e.name = n))
 
-/-- step 2 for `Int`: the accessor of the `is_valid` registered under that name -/
-def registeredIntValidator : Acc :=
+/-- step 2 for `Int`: the `is_valid` registered under that name — the one of that first type, as
+    the source has it (`Model.Scalars.isValidInt` over the extracted guard: `is_i64()`, `is_u64()` or
+    a disjunction of them) -/
+def registeredIntValid (v : GValue) : Bool :=
   match registeredIntEntry with
-  | some e => e.isValid
-  | none => .i64
-
-def validNumber (a : Acc) : GValue → Bool
-  | .int i => decide (readable a i)
-  | _ => false
+  | some e => isValidInt .none e v
+  | none => pinnedValidInt ⟨"", false, .i64, [], ⟨64, true⟩, .i64, .i64, []⟩ v
 
 /-- steps 2 and 3 over an arbitrary table row -/
 def answerInt (t : Entry) (v : GValue) : NAns :=
-  if validNumber registeredIntValidator v = false then .error
+  if registeredIntValid v = false then .error
   else match parseInt t v with
     | .ok r => .data (.int r)
     | .err _ => .error
